@@ -2,5 +2,5 @@ from . import interpprops
 def check(res, thorough):
     return interpprops.check(res, thorough, "C14", "AscaVerif.Props.C14", "c14-spec", "c14.cases", "c14.nontrivial",
         """segment-only rules (k<=3 segment-matching inputs; k matrices without length/stress/tone, or k plain IPA segments) and prosody-only rules ([±stress], [±sec.stress], [tone:n] on % or on segments; $ > *, * > $, $X > &, X$ > &) with environments and exceptions borrowed from full-grammar rules; the untouched tier (stress/tone per syllable, syllable count, and syllable shapes for matrix outputs; resp. the flat segment list) must be equal whenever Ok""",
-        ["cases that panic or hang are skipped (C02)"], extra_props=["AscaVerif.Props.C14Scan"])
+        ["cases that panic or hang are skipped (C02)"], extra_props=["AscaVerif.Props.C14Scan", "AscaVerif.Props.C14Supra"])
 replay = interpprops.replay
